@@ -152,6 +152,10 @@ void ForwardPropagator::operator()(const G& graph) {
 
   graph.forEachNode([&](const NodeType& node) {
     if (!node.isCompleted()) {
+      // Every incomplete node is visited below and gets one count per incomplete predecessor, so
+      // start from zero: this makes the propagation independent of the counts the node had before
+      // (freshly built, already propagated, or marked with setIncomplete()).
+      resetIncompletePredecessors(node);
       nodesToVisit_.emplace_back(&node);
       visited_.insert(&node);
       appendGroup(static_cast<const NodeType*>(&node), groups_);
